@@ -105,15 +105,16 @@ def sources_view(sig):
 
 
 def src_as_sets(sig):
-    """sources map as {name: frozenset(ids)} + depths {id: depth} (order/dups ignored)."""
-    src = sig.sources
+    """sources map as {name: frozenset(ids)} + depths {id: depth} (order/dups ignored).
+    A plain inspect.Signature (the deprecated way of calling the algebra) has none."""
+    src = getattr(sig, 'sources', None) or {}
     names = {k: frozenset(ident(f) for f in v) for k, v in src.items() if k != '+depths'}
     depths = {ident(f): d for f, d in src.get('+depths', {}).items()}
     return names, depths
 
 
 def src_exact(sig):
-    src = sig.sources
+    src = getattr(sig, 'sources', None) or {}
     names = {k: [id(f) for f in v] for k, v in src.items() if k != '+depths'}
     depths = {id(f): d for f, d in src.get('+depths', {}).items()}
     return names, depths
